@@ -20,7 +20,7 @@ ID = "C10"
 TECHNIQUE = "bounded-exhaustive grid enumeration of symmetric PSD inputs (size x spectrum x basis x scale x root x epsilon x dtype x solver) on the real matrix_inverse_root against a float64 / closed-form spectral oracle with the error bound of the statement"
 RULE = (
     "n in {1,2,3,4,5,8,16[,32,64,128 thorough]} x spectra {equal, geometric(cond 10^k), one_tiny, clustered, rankdef, linear} x bases {identity, perm, householder, givens, dct} x scale {1e-6,1,1e6} x "
-    "roots {1,2,4,8,3,6,3/2,4/3,8/3[,5,7 for n <= 3]} x eps {1e-2,1e-6,1e-12}*scale x dtype {f32,f64} x solver {eigen, eigen+stability, newton(1e-6), newton(1e-10), higher-order(2), higher-order(3)}; "
+    "roots {1,2,4,8,3,6,3/2,4/3,8/3[,5,7 for n <= 3]} x eps {1e-2,1e-6,1e-12}*scale x dtype {f32,f64} x solver {eigen, eigen+stability, eigen with a config carrying exponent_multiplier, higher-order with rel_epsilon 1e-2 (spectral two-sided bound), newton(1e-6), newton(1e-10), higher-order(2), higher-order(3)}; "
     "complete product for n <= 8 (<= 5 quick), larger n with reduced axes. state = the input tuple; non-trivial = condition number > 10"
 )
 ASSUMPTIONS = [
@@ -38,12 +38,14 @@ EPS_REL = {"f32": [1e2, 1.0, 1e-2, 1e-4, 1e-6], "f64": [1e2, 1.0, 1e-2, 1e-6, 1e
 # below the dtype's resolution of the scale (e.g. the default epsilon 1e-12 with float32 factors): only the direct
 # (eigendecomposition) solvers are exercised there, against the closed form of the construction with the true kappa
 EPS_BELOW = {"f32": [1e-12, 1e-18], "f64": [1e-24]}
-SOLVERS = ["eigen", "eigen_stab", "newton6", "newton10", "ho2", "ho3"]
+SOLVERS = ["eigen", "eigen_stab", "eigen_mult", "newton6", "newton10", "ho2", "ho3"]
+REL_EPS = 1e-2  # CoupledHigherOrderConfig.rel_epsilon of the relative-ridge part
 ROOTS = [Fraction(1), Fraction(2), Fraction(4), Fraction(8), Fraction(3, 2), Fraction(4, 3), Fraction(8, 3), Fraction(3), Fraction(6)]
 # further integer roots that are not powers of two (order-3 tensors use 6; inv_root_override may be anything): small n only
 ODD_ROOTS = [Fraction(5), Fraction(7)]  # p <= 8: beyond that the float64 evaluation of X^p itself loses the residual bound (measured: 12 -> 2.4x, 16 -> 40x)
 # what Fraction(root / exponent_multiplier) produces for multipliers that are not dyadic: huge numerator/denominator.
 # Only the direct solvers are run on these (the coupled iterations would need matrix powers with p ~ 1e15).
+REL_ROOTS = [Fraction(2), Fraction(4), Fraction(3, 2)]
 BIG_ROOTS = [Fraction(2 / 1.37), Fraction(4 / 1.821), Fraction(2 / 0.7)]
 
 
@@ -57,6 +59,8 @@ def solver_cfg(name):
     return {
         "eigen": EigenConfig(),
         "eigen_stab": EigenConfig(enhance_stability=True),
+        # the caller folds exponent_multiplier into `root`; the routine must compute the root it is given
+        "eigen_mult": EigenConfig(exponent_multiplier=1.82),
         "newton6": CoupledNewtonConfig(tolerance=1e-6),
         "newton10": CoupledNewtonConfig(tolerance=1e-10),
         "ho2": CoupledHigherOrderConfig(order=2, rel_epsilon=0.0, tolerance=1e-8),
@@ -235,6 +239,42 @@ def check_input(torch, c, stats):
                 stats[key] = max(stats.get(key, 0.0), ratio)
                 if not rel <= bound:
                     out.append((case, f"relative error {rel:.3e} exceeds the bound {bound:.3e} (kappa {kappa:.2e}, n {n}, {dtype}, flag {fname})"))
+        # relative ridge of the higher-order solver: "adds rel_epsilon * lambda_max * I ... where lambda_max is an upper bound on
+        # the maximum eigenvalue; max(rel_epsilon * lambda_max, abs_epsilon) when both are given".  Any upper bound between
+        # lambda_max and n * lambda_max is accepted (infinity norm, Frobenius norm and trace all are): the eigenvalues of X must
+        # lie between those of the inverse roots for the smallest and the largest admissible ridge.
+        if n > 1 and not below and r in REL_ROOTS:
+            from matrix_functions_types import CoupledHigherOrderConfig
+
+            case = dict(c, root=[r.numerator, r.denominator], solver="ho_rel")
+            An = A.double().numpy()
+            la = np.linalg.eigvalsh(An)
+            lmax = float(la.max())
+            e_lo, e_hi = max(REL_EPS * lmax, eps), max(REL_EPS * n * lmax, eps)
+            if lmax > 0 and la.min() + e_lo > 0:
+                kap = (lmax + e_lo) / (float(la.min()) + e_lo)
+                try:
+                    Xr = mf.matrix_inverse_root(A, root=r, root_inv_config=CoupledHigherOrderConfig(order=3, rel_epsilon=REL_EPS, tolerance=1e-8), epsilon=eps)
+                    Xr = Xr.double().numpy()
+                    stats["ho_rel_checked"] = stats.get("ho_rel_checked", 0) + 1
+                    stats["calls"] = stats.get("calls", 0) + 1
+                    wX = np.sort(np.linalg.eigvalsh((Xr + Xr.T) / 2))[::-1]
+                    e = -1.0 / float(r)
+                    hi, lo = (np.sort(la) + e_lo) ** e, (np.sort(la) + e_hi) ** e
+                    delta = C_BOUND * n * u * kap + 8 * 1e-8 * max(1.0, n / r.numerator) + (1.0 / float(r)) * U32 * float(np.max(np.abs(np.log(np.sort(la) + e_lo))))
+                    if not np.all(np.isfinite(Xr)):
+                        out.append((case, "result with a relative ridge is not finite"))
+                    elif np.any(wX > hi * (1 + delta)) or np.any(wX < lo * (1 - delta)):
+                        i = int(np.argmax(np.maximum(wX / hi, lo / wX)))
+                        out.append((case, f"higher-order solver with rel_epsilon={REL_EPS}: eigenvalue {i} of X is {wX[i]:.6e}, outside [{lo[i]:.6e}, {hi[i]:.6e}] = the inverse roots for a ridge between rel_epsilon*lambda_max and rel_epsilon*n*lambda_max (delta {delta:.1e})"))
+                    else:
+                        comm = np.linalg.norm(An @ Xr - Xr @ An, 2) / (np.linalg.norm(An, 2) * np.linalg.norm(Xr, 2))
+                        if not comm <= C_BOUND * n * u * kap + 8e-8 * n:
+                            out.append((case, f"higher-order solver with rel_epsilon={REL_EPS}: result does not commute with the input ({comm:.2e})"))
+                except ArithmeticError:
+                    stats["ho_raised"] = stats.get("ho_raised", 0) + 1
+                except Exception as ex:
+                    out.append((case, f"raised {type(ex).__name__}: {str(ex)[:100]}"))
         # fast paths
         if c["basis"] == "identity" and n > 1:
             try:
